@@ -1,5 +1,6 @@
 import Mkdb.Driver.LRU
 import Mkdb.Driver.Page
+import Mkdb.Driver.Tuple
 open Mkdb.Driver
 
 def main (args : List String) : IO UInt32 := do
@@ -10,4 +11,6 @@ def main (args : List String) : IO UInt32 := do
   | ["judge", "lru"] => judgeLoop stdin stdout ({} : LRU.J) LRU.judgeLine; return 0
   | ["model", "page"] => modelLoop stdin stdout () Page.stepLine; return 0
   | ["judge", "page"] => judgeLoop stdin stdout "?" Page.judgeLine; return 0
+  | ["model", "tuple"] => modelLoop stdin stdout ({} : Tuple.St) Tuple.stepLine; return 0
+  | ["judge", "tuple"] => judgeLoop stdin stdout ({} : Tuple.J) Tuple.judgeLine; return 0
   | _ => IO.eprintln "usage: mkdbdrv model|judge <proto>"; return 2
